@@ -47,6 +47,11 @@ type Exec struct {
 	nameCnt  map[string]int
 	cellID   int
 	allocN   int
+	allocOff int
+	allocBase *Term
+	freshRefs map[string]bool
+	freshNames map[string]bool
+	writeBases map[string][]*Term
 	stack    []*ssa.Function
 	trusted  map[string]bool // assumed contracts / modelling assumptions actually used
 	unmod    map[string]bool // unmodelled calls
@@ -87,7 +92,7 @@ func NewExec(prog *ssa.Program, db *SpecDB, fset *token.FileSet) *Exec {
 	return &Exec{ctx: NewCtx(), prog: prog, db: db, fset: fset, heapSort: map[string]*Sort{}, written: map[string]bool{}, cellsW: map[*Cell]bool{},
 		strLits: map[string]*Term{}, typeTags: map[string]int{}, tagTypes: map[int]types.Type{}, fnRefs: map[string]*Term{}, fnByRef: map[string]*ssa.Function{},
 		nameCnt: map[string]int{}, trusted: map[string]bool{}, unmod: map[string]bool{}, axiomsOn: map[string]bool{}, safety: true, maxDepth: 8, useContracts: true,
-		closures: map[string]*Value{}, repoPkgs: map[string]bool{}, mkstrSeen: map[string]bool{}, zarrSeen: map[string]bool{}, namedFuns: map[string]*namedFun{}}
+		closures: map[string]*Value{}, repoPkgs: map[string]bool{}, mkstrSeen: map[string]bool{}, zarrSeen: map[string]bool{}, namedFuns: map[string]*namedFun{}, freshRefs: map[string]bool{}, freshNames: map[string]bool{}, writeBases: map[string][]*Term{}}
 }
 
 type Frame struct {
@@ -527,6 +532,11 @@ func (x *Exec) computeLoops(fn *ssa.Function) (order []*ssa.BasicBlock, loops ma
 
 // loopPos orders loop headers by source position (falls back to block index).
 func loopPos(h *ssa.BasicBlock) int {
+	// go/ssa creates blocks in source order for structured code
+	return h.Index
+}
+
+func loopPosOld(h *ssa.BasicBlock) int {
 	best := 0
 	for _, in := range h.Instrs {
 		if p := in.Pos(); p.IsValid() {
@@ -738,6 +748,15 @@ func (x *Exec) enterLoop(fr *Frame, li *loopInfo, entry *State, edgeStates []*St
 	savedFacts, savedObls := len(x.facts), len(x.obls)
 	savedW, savedC := x.written, x.cellsW
 	x.written, x.cellsW = map[string]bool{}, map[*Cell]bool{}
+	savedWB := x.writeBases
+	x.writeBases = map[string][]*Term{}
+	savedFresh := x.freshRefs
+	x.freshRefs = map[string]bool{}
+	savedAllocBase, savedAllocOff := x.allocBase, x.allocOff
+	declaredBefore := map[string]bool{}
+	for _, n := range x.ctx.order {
+		declaredBefore[n] = true
+	}
 	savedOut := map[*ssa.BasicBlock]*State{}
 	for k, v := range fr.blockOut {
 		savedOut[k] = v
@@ -757,6 +776,70 @@ func (x *Exec) enterLoop(fr *Frame, li *loopInfo, entry *State, edgeStates []*St
 	}()
 	wkeys, wcells := x.written, x.cellsW
 	x.written, x.cellsW = savedW, savedC
+	// keys written only in objects allocated inside the loop, or in objects named by a term that
+	// already existed before the loop, keep their pre-loop contents everywhere else
+	freshOnly := map[string]bool{}
+	preBases := map[string][]*Term{}
+	for k := range wkeys {
+		ok := true
+		seenB := map[string]bool{}
+		for _, b := range x.writeBases[k] {
+			switch {
+			case b != nil && b.Op == "const" && x.freshRefs[b.Name]:
+			case b != nil && b.Op == "const" && declaredBefore[b.Name]:
+				if !seenB[b.Name] {
+					seenB[b.Name] = true
+					preBases[k] = append(preBases[k], b)
+				}
+			default:
+				ok = false
+			}
+		}
+		freshOnly[k] = ok && len(x.writeBases[k]) > 0
+	}
+	for k, bs := range x.writeBases {
+		// a write to an object allocated in this loop is, for an enclosing loop, also a write to a fresh object
+		savedWB[k] = append(savedWB[k], bs...)
+	}
+	x.writeBases = savedWB
+	for n := range x.freshRefs {
+		savedFresh[n] = true
+	}
+	x.freshRefs = savedFresh
+	x.allocBase, x.allocOff = savedAllocBase, savedAllocOff
+	// slice phis whose offset is 0 at entry and on every back edge keep offset 0
+	zeroOff := map[*ssa.Phi]bool{}
+	for _, phi := range phis {
+		ev := entryVals[phi]
+		if ev.K != KSlice || ev.Off.Op != "int" || ev.Off.Int.Sign() != 0 {
+			continue
+		}
+		ok := true
+		for pi, p := range h.Preds {
+			if !h.Dominates(p) {
+				continue
+			}
+			if _, done := fr.blockOut[p]; !done {
+				continue
+			}
+			bv, have := fr.regs[phi.Edges[pi]]
+			if !have {
+				if c, isC := phi.Edges[pi].(*ssa.Const); isC {
+					bv = x.coerce(x.constValue(c), phi.Type())
+				} else {
+					ok = false
+					continue
+				}
+			}
+			if phi.Edges[pi] == ssa.Value(phi) {
+				continue
+			}
+			if bv.K != KSlice || bv.Off.Op != "int" || bv.Off.Int.Sign() != 0 {
+				ok = false
+			}
+		}
+		zeroOff[phi] = ok
+	}
 	for k := range wkeys {
 		x.written[k] = true
 	}
@@ -782,8 +865,15 @@ func (x *Exec) enterLoop(fr *Frame, li *loopInfo, entry *State, edgeStates []*St
 	// havoc
 	st := entry.clone()
 	x.havocN++
+	allocAtEntry := x.allocNow()
+	epoch := x.allocEpoch()
 	for _, phi := range phis {
-		fr.regs[phi] = x.freshValue(fmt.Sprintf("L%d_%s", li.ordinal, phiName(phi)), phi.Type(), st.guard)
+		v := x.freshValue(fmt.Sprintf("L%d_%s", li.ordinal, phiName(phi)), phi.Type(), st.guard)
+		if zeroOff[phi] {
+			v.Off = IntLit(0)
+		}
+		x.boundRefs(v, epoch)
+		fr.regs[phi] = v
 	}
 	keys := make([]string, 0, len(wkeys))
 	for k := range wkeys {
@@ -795,7 +885,19 @@ func (x *Exec) enterLoop(fr *Frame, li *loopInfo, entry *State, edgeStates []*St
 			x.havocAll(st)
 			continue
 		}
-		st.heap[k] = x.ctx.Fresh(fmt.Sprintf("L%d_H_%s", li.ordinal, shortKey(k)), x.heapSort[k])
+		pre := x.heapArr(st, k, x.heapSort[k])
+		nh := x.ctx.Fresh(fmt.Sprintf("L%d_H_%s", li.ordinal, shortKey(k)), x.heapSort[k])
+		st.heap[k] = nh
+		x.refBound(nh, epoch)
+		if freshOnly[k] {
+			// the loop writes this array only in objects it allocates itself
+			r := BoundVar("r", RefSort)
+			cond := []*Term{Le(x.ctx.App("allocId", IntSort, r), allocAtEntry)}
+			for _, b := range preBases[k] {
+				cond = append(cond, Neq(r, b))
+			}
+			x.facts = append(x.facts, Forall([]*Term{r}, Implies(And(cond...), Eq(Select(nh, r), Select(pre, r))), []*Term{Select(nh, r)}))
+		}
 	}
 	var cl []*Cell
 	for c := range wcells {
@@ -803,7 +905,12 @@ func (x *Exec) enterLoop(fr *Frame, li *loopInfo, entry *State, edgeStates []*St
 	}
 	sort.Slice(cl, func(i, j int) bool { return cl[i].ID < cl[j].ID })
 	for _, c := range cl {
-		if _, live := st.cells[c]; live {
+		if cur, live := st.cells[c]; live {
+			if c.T == nil {
+				// ghost cell (iterator 'seen' set): fresh term of the same sort
+				st.cells[c] = &Value{K: KScalar, Term: x.ctx.Fresh(fmt.Sprintf("L%d_%s", li.ordinal, c.Name), cur.Term.Sort)}
+				continue
+			}
 			st.cells[c] = x.freshValue(fmt.Sprintf("L%d_%s", li.ordinal, c.Name), c.T, st.guard)
 		}
 	}
